@@ -357,10 +357,33 @@ func legacyModelLines(c *TrieCase, id int) (lines []string, obsIdx []int) {
 	return lines, obsIdx
 }
 
+// tracerLeafAbs: which path trie2's delete reports to the tracer for a last-level leaf, probed on
+// the tree under test (the Lean model follows the code; no root depends on it).
+var tracerLeafAbs bool
+
+func probeTracer() bool {
+	c := &TrieCase{Height: 2, Hash: "ped", Ops: []TOp{{Op: "put", K: "2", V: "1"}, {Op: "put", K: "3", V: "1"},
+		{Op: "commit"}, {Op: "put", K: "3", V: "0"}, {Op: "commit"}}}
+	t := runTrie2(c)
+	if len(t.Sets) < 2 {
+		return false
+	}
+	for _, e := range t.Sets[1] {
+		if e == "D:2:3:1" {
+			return true
+		}
+	}
+	return false
+}
+
 // script for the trie2 model with node database / tracer / lazy resolution: commit answers carry
 // the node set
 func lazyModelLines(c *TrieCase, id int) (lines []string, obsIdx []int) {
-	lines = append(lines, fmt.Sprintf("bnew %d %d %s", id, c.Height, c.Hash))
+	fix := 0
+	if tracerLeafAbs {
+		fix = 1
+	}
+	lines = append(lines, fmt.Sprintf("bnew %d %d %s %d", id, c.Height, c.Hash, fix))
 	for _, op := range c.Ops {
 		switch op.Op {
 		case "put":
